@@ -19,7 +19,7 @@ GUARD = "RTRLIB_VERIF"
 FLAVOURS = {
     # assertions enabled everywhere (no -DNDEBUG) except 'ndebug'
     "asan": dict(cc="gcc", cflags=["-O1", "-g", "-fno-omit-frame-pointer", "-fsanitize=address,undefined",
-                                   "-fno-sanitize=alignment", "-fno-sanitize=shift-base",
+                                   "-fno-sanitize=alignment", "-fno-sanitize=shift-base", "-fno-sanitize=vla-bound",
                                    "-fno-sanitize-recover=undefined"],
                  ldflags=["-fsanitize=address,undefined"]),
     "plain": dict(cc="gcc", cflags=["-O2", "-g", "-fno-omit-frame-pointer"], ldflags=[]),
